@@ -345,11 +345,13 @@ def neighbours(kind, ep):
     return res
 
 
-def gen_group(rng, kind, nnot):
+def gen_group(rng, kind, nnot, first=None):
     n = rng.choice([1, 1, 2, 3])
     ranges = []
     for _ in range(n):
         a = GEN_EP[kind](rng)
+        if first is not None and not ranges:
+            a = list(first)
         if ranges and rng.random() < 0.3:
             a = list(ranges[-1][0])          # same start as the previous range, another stop
         r = rng.random()
@@ -499,6 +501,13 @@ def check(run):
     for i in range(ngroups):
         kind = ['time', 'date', 'datetime'][i % 3]
         cases += gen_group(run.rng, kind, 6)
+    # fixed end points: the last day of February in a leap year ("all days of a leap year"), the last
+    # microsecond of a day, the first and the last supported year
+    for kind, first in (('date', [2, 29]), ('date', [2, 28]), ('date', [12, 31]), ('time', [23, 59, 59, 999999]),
+                        ('time', [0, 0, 0, 0]), ('datetime', [2024, 2, 29, 23, 59, 59, 999999]),
+                        ('datetime', [2000, 2, 29, 0, 0, 0, 0]), ('datetime', [9999, 12, 31, 23, 59, 59, 0]),
+                        ('datetime', [1, 1, 1, 0, 0, 0, 0])):
+        cases += gen_group(run.rng, kind, 4, first=first)
     for i in range(nmal):
         cases.append(gen_malformed(run.rng, ['time', 'date', 'datetime'][i % 3]))
     for c in cases:
